@@ -35,6 +35,10 @@ func runC13(c *Ctx) {
 	c13Provenance(c)
 	c13Compare(c)
 	c13Always(c)
+	// after a corrupted page made the underlying reader fail, the asynchronous
+	// wrapper must keep reporting that error instead of resuming from an
+	// unknown stream position
+	asyncStickyRule(c, "C13.sticky")
 
 	// C13.errors
 	scope := map[string]bool{}
@@ -421,6 +425,30 @@ func c13Always(c *Ctx) {
 		sort.Strings(missing)
 		c.Check(rule, k+":crc32-covers-emitted-buffers", fn.Pos(), len(missing) == 0, "writerBuffers fields read by "+k+" but not covered by crc32(): "+strings.Join(missing, ","))
 	}
+	// the checksum routine returns a computed checksum on every path: a
+	// constant result (e.g. an early `return 0`) makes the reader skip
+	// verification, since a zero CRC reads as "absent"
+	if cf := p.SSAFunc(crcFn); cf != nil {
+		okAll, nret := true, 0
+		for _, r := range returnsOf(cf) {
+			rv, rec := retResult(r, 0)
+			if rec || rv == nil {
+				continue
+			}
+			nret++
+			for _, o := range Origins(rv, OriginOpts{}) {
+				if o.Kind != OrgCall || o.Call == nil {
+					okAll = false
+					continue
+				}
+				co := calleeObj(o.Call)
+				if co == nil || co.Pkg() == nil || co.Pkg().Path() != "hash/crc32" {
+					okAll = false
+				}
+			}
+		}
+		c.Check(rule, "writerBuffers.crc32:every-return-is-a-computed-checksum", crcFn.Pos(), okAll && nret > 0, "(*writerBuffers).crc32 returns a value that is not the result of hash/crc32 on some path; the reader treats CRC 0 as absent and skips verification")
+	}
 	same := len(crcReads) == len(sizeReads)
 	for f := range crcReads {
 		if !sizeReads[f] {
@@ -428,7 +456,7 @@ func c13Always(c *Ctx) {
 		}
 	}
 	c.Check(rule, "writerBuffers:crc32-and-size-cover-same-buffers", crcFn.Pos(), same && len(crcReads) >= 3, "crc32() and size() must read the same buffer fields (repetitions, definitions, page)")
-	c.Min(rule, 9)
+	c.Min(rule, 10)
 }
 
 // instrsAfter lists the instructions that can execute after ins (rest of its
